@@ -3,7 +3,7 @@ correspondence (Scalar / Array operators on the default POSC database, read only
 canonical results.
 
 An operand specification is JSON-able:
-  {"t":"num","ty":T,"x":X}                T in int float bool f64 f32 i64 i32 (python / numpy scalar types)
+  {"t":"num","ty":T,"x":X}                T in int float bool f64 f32 f16 i64 i32 i16 i8 u64 u32 u16 u8
   {"t":"nd","dt":D,"xs":[X..]}            numpy.ndarray, D in f64 f32 i64
   {"t":"scalar","q":Q,"x":X}              Scalar.CreateWithQuantity(ObtainQuantity(OrderedDict(Q)), x)
   {"t":"array","q":Q,"kind":K,"xs":[X..]} Array.CreateWithQuantity(.., list | tuple | ndarray)
@@ -24,6 +24,12 @@ PYOP = {"sum": operator.add, "sub": operator.sub, "mul": operator.mul, "div": op
         "floordiv": operator.floordiv}
 OPSIGN = {"sum": "+", "sub": "-", "mul": "*", "div": "/", "floordiv": "//"}
 NUM_TYPES = ("int", "float", "bool", "f64", "f32", "i64", "i32")
+# the other numpy scalar kinds: unsigned and small signed ints, float16 (value pools small enough for uint8)
+SMALL_TYPES = ("u8", "u16", "u32", "u64", "i8", "i16", "f16")
+NP_TYPES = ("f64", "f32", "i64", "i32") + SMALL_TYPES
+NP_NAMES = {"f64": "float64", "f32": "float32", "f16": "float16", "i64": "int64", "i32": "int32", "i16": "int16", "i8": "int8",
+            "u64": "uint64", "u32": "uint32", "u16": "uint16", "u8": "uint8"}
+EPS16 = 2.0 ** -11
 KINDS = ("list", "tuple", "nd")
 EPS32 = 2.0 ** -24
 
@@ -55,15 +61,18 @@ def _np():
 def num_object(ty, x):
     np = _np()
     v = val(x)
-    return {"int": int, "float": float, "bool": bool, "f64": np.float64, "f32": np.float32, "i64": np.int64,
-            "i32": np.int32}[ty](v)
+    if ty in NP_NAMES:
+        return getattr(np, NP_NAMES[ty])(v)
+    return {"int": int, "float": float, "bool": bool}[ty](v)
 
 
 def num_spec(ty, v):
     """a specification whose exact value is the value the object of that type really has"""
     np = _np()
-    if ty in ("int", "i64", "i32"):
+    if ty in ("int", "i64", "i32", "i16", "i8", "u64", "u32", "u16", "u8"):
         return dict(t="num", ty=ty, x=int(v))
+    if ty == "f16":
+        return dict(t="num", ty=ty, x=float(np.float16(v)).hex())
     if ty == "bool":
         return dict(t="num", ty=ty, x=int(bool(v)))
     if ty == "f32":
@@ -145,6 +154,8 @@ def build(spec):
             vs = np.array(vs, dtype=np.int64 if (vs and all(isinstance(v, int) for v in vs)) else np.float64)
         return Array.CreateWithQuantity(quantity(spec["q"]), values=vs)
     if t == "junk":
+        if spec["w"] == "npbool":
+            return np.bool_(True)   # not a numpy.number: IsNumber says no
         return {"str": "x", "none": None, "list": [1.0, 2.0]}[spec["w"]]
     raise ValueError(t)
 
@@ -152,7 +163,7 @@ def build(spec):
 def model_operand(spec):
     t = spec["t"]
     if t == "num":
-        return dict(t="num", np=spec["ty"] in ("f64", "f32", "i64", "i32"), k=qstr(exact_of(spec["x"])))
+        return dict(t="num", np=spec["ty"] in NP_TYPES, k=qstr(exact_of(spec["x"])))
     if t == "nd":
         return dict(t="nd", ks=[qstr(exact_of(x)) for x in spec["xs"]])
     qs = lambda q: [[str(sym(c)), str(sym(u)), str(int(e))] for c, u, e in q]
@@ -167,7 +178,7 @@ def render(spec):
     t = spec["t"]
     if t == "num":
         ty = spec["ty"]
-        name = {"f64": "numpy.float64", "f32": "numpy.float32", "i64": "numpy.int64", "i32": "numpy.int32"}.get(ty, ty)
+        name = ("numpy." + NP_NAMES[ty]) if ty in NP_NAMES else ty
         return "%s(%r)" % (name, val(spec["x"]))
     if t == "nd":
         base = "numpy.array(%r, dtype=%s)" % ([val(x) for x in spec["xs"]], spec["dt"])
@@ -180,7 +191,7 @@ def render(spec):
             return "%s.view(<class MyArr(numpy.ndarray) with __array_priority__ = %s>)" % (base, sub[2:] + ".0")
         return base
     if t == "junk":
-        return {"str": "'x'", "none": "None", "list": "[1.0, 2.0]"}[spec["w"]]
+        return {"str": "'x'", "none": "None", "list": "[1.0, 2.0]", "npbool": "numpy.bool_(True)"}[spec["w"]]
     q = spec["q"]
     if t == "scalar":
         if len(q) == 1 and int(q[0][2]) == 1:
@@ -217,7 +228,7 @@ def canon(r):
         kind = "nd" if isinstance(vs, np.ndarray) else "tuple" if isinstance(vs, tuple) else "list" if isinstance(vs, list) else None
         if kind is None or (kind == "nd" and vs.ndim != 1):
             return dict(err="other", detail="values of type %s" % type(vs).__name__)
-        out, f32 = [], False
+        out, f32, f16 = [], False, False
         masked = None
         if isinstance(vs, np.ma.MaskedArray):
             # masked positions carry no value: reported as None and not compared
@@ -231,13 +242,15 @@ def canon(r):
                 return dict(err="other", detail="element of type %s" % type(v).__name__)
             if isinstance(v, np.float32):
                 f32 = True
+            if isinstance(v, np.float16):
+                f16 = True
             if isinstance(v, (int, np.integer)):
                 out.append(int(v))
             else:
                 if not math.isfinite(float(v)):
                     return dict(err="other", detail="nonfinite")
                 out.append(float(v).hex())
-        return dict(ok=dict(t="array", q=entries(r.GetQuantity()), kind=kind, vs=out, f32=f32))
+        return dict(ok=dict(t="array", q=entries(r.GetQuantity()), kind=kind, vs=out, f32=("f16" if f16 else f32)))
     return dict(ok=dict(t="bare", py=type(r).__name__))
 
 
@@ -274,14 +287,26 @@ def show(c):
 
 
 def uses_f32(spec):
+    """False, True (a float32 takes part) or "f16" (a float16 does): the precision class of the float comparison"""
+    if spec.get("ty") == "f16":
+        return "f16"
     return (spec.get("ty") == "f32") or (spec.get("dt") == "f32")
+
+
+def lowest(*classes):
+    return "f16" if "f16" in classes else (True if any(classes) else False)
+
+
+def eps_of(f32):
+    return EPS16 if f32 == "f16" else EPS32 if f32 else EPS
 
 
 # ------------------------------------------------------------------------------------------ comparison
 def tol_close(real, exact_value, magnitude, f32=False):
-    eps = EPS32 if f32 else EPS
+    eps = eps_of(f32)
     m = max(abs(Fraction(magnitude)), abs(Fraction(exact_value)))
-    floor_ = Fraction(1, 10 ** 37) if f32 else Fraction(1, 10 ** 300)   # below: float32 denormals
+    # below these the low precision types are denormal
+    floor_ = Fraction(1, 10 ** 4) if f32 == "f16" else Fraction(1, 10 ** 37) if f32 else Fraction(1, 10 ** 300)
     return abs(exact(real) - Fraction(exact_value)) <= 4 * K * Fraction(eps) * m + floor_
 
 
@@ -302,7 +327,7 @@ def compare_values(impl_vs, model_vs, M, f32, pre=None):
             continue
         if pre is not None:
             p = qparse(pre[i])
-            near = abs(p - round(p)) <= 16 * K * Fraction(EPS32 if f32 else EPS) * max(abs(p), 1)
+            near = abs(p - round(p)) <= 16 * K * Fraction(eps_of(f32)) * max(abs(p), 1)
             if near and abs(exact(rv) - yv) <= 1:
                 continue
         return "element %d: float result %r is not within K*eps*M of the exact %s" % (i, rv, float(yv))
@@ -313,7 +338,8 @@ def agree_binop(c, io, mo, notes=None):
     if io.get("detail") == "nonfinite" and "ok" in mo and "vs" in mo["ok"]:
         # overflow of the float type that took part (float32: 3.4e38, float64: 1.8e308) is not a zero division
         t = c["_t"]
-        limit = Fraction(10) ** (38 if (uses_f32(t["a"]) or uses_f32(t["b"])) else 308)
+        cls_ = lowest(uses_f32(t["a"]), uses_f32(t["b"]))
+        limit = Fraction(6 * 10 ** 4) if cls_ == "f16" else Fraction(10) ** (38 if cls_ else 308)
         if any(abs(qparse(v)) >= limit for v in mo["ok"]["vs"]):
             return None
     if "err" in io or "err" in mo:
@@ -331,8 +357,34 @@ def agree_binop(c, io, mo, notes=None):
     if a["t"] == "array" and a["kind"] != b["kind"]:
         return "container kinds differ: impl=%s model=%s" % (a["kind"], b["kind"])
     t = c["_t"]
-    f32 = a.get("f32") or uses_f32(t["a"]) or uses_f32(t["b"])
-    return compare_values(a["vs"], b["vs"], qparse(b["M"]), f32, mo.get("pre"))
+    f32 = lowest(a.get("f32"), uses_f32(t["a"]), uses_f32(t["b"]))
+    pre = mo.get("pre")
+    if pre is not None and not f32 and exact_floor_case(t):
+        pre = None   # Python's and numpy's float `//` is the floor of the exact quotient: no don't-care
+    return compare_values(a["vs"], b["vs"], qparse(b["M"]), f32, pre)
+
+
+EXACT_NUM = ("int", "float", "bool", "f64", "i64", "i32", "i16", "i8", "u64", "u32", "u16", "u8")
+
+
+def exact_floor_case(t):
+    """`x // k` / `k // x` with a plain operand of double precision (or an integer) and a barril operand whose
+    quantity needs no unit matching: no rounded intermediate, so `//` must be the floor of the exact quotient of
+    the two numbers as given"""
+    from barril.units.unit_database import UnitDatabase
+
+    a, b = t["a"], t["b"]
+    plain = [s_ for s_ in (a, b) if s_["t"] in ("num", "nd")]
+    objs = [s_ for s_ in (a, b) if s_["t"] in ("scalar", "array")]
+    if len(plain) != 1 or len(objs) != 1:
+        return False
+    k = plain[0]
+    if k["t"] == "num" and k["ty"] not in EXACT_NUM:
+        return False
+    if k["t"] == "nd" and k["dt"] not in ("f64", "i64"):
+        return False
+    return objs[0]["t"] == "scalar" or not mixed_units(UnitDatabase.GetSingleton(), objs[0]["q"])
+
 
 
 # ------------------------------------------------------------------------------------------ quantity pools
@@ -598,7 +650,7 @@ def branch_key(c, io):
         if s["t"] == "array":
             return "A" + s["kind"] + ("0" if not s["xs"] else "")
         if s["t"] == "num":
-            return "k" + ("np" if s["ty"] in ("f64", "f32", "i64", "i32") else "py")
+            return "k" + ("np" if s["ty"] in NP_TYPES else "py")
         return {"scalar": "S", "nd": "ND", "junk": "J"}[s["t"]]
 
     return "%s %s %s -> %s" % (sh(t["a"]), t["f"], sh(t["b"]), io["err"] if "err" in io else io["ok"]["t"])
